@@ -203,7 +203,10 @@ class C05:
             elif r < 0.9:
                 ops.append(self.gen_input_op(rnd, w))
             else:
-                ops.append({"op": "full", "pipeline": self.gen_pipeline_op(rnd, w, p_bad=0.2), "input": self.gen_input_op(rnd, w, p_bad=0.15)})
+                pp = self.gen_pipeline_op(rnd, w, p_bad=0.2)
+                if pp.pop("band_sets", None):
+                    pp["bad"] = None  # whole-configuration checks read both images from files with identical bands
+                ops.append({"op": "full", "pipeline": pp, "input": self.gen_input_op(rnd, w, p_bad=0.15)})
         return {"harness": "check-history", "world": w, "ops": ops}
 
     def gen_pipeline_op(self, rnd, w, p_bad=0.35):
@@ -237,7 +240,14 @@ class C05:
             if b is not None:
                 bad = [n] + b
             steps.append([n, k, method, cfg])
-        return {"op": "pipeline", "steps": steps, "bad": bad}
+        op = {"op": "pipeline", "steps": steps, "bad": bad}
+        if w["bands"] > 1 and bad is None and rnd.random() < 0.2:
+            # the two images do not carry the same bands: the selected band exists in one image only
+            mc = steps[0][3]
+            others = [x for x in band_names if x != mc.get("band")]
+            op["band_sets"] = {rnd.choice(["left", "right"]): others + ["zz"]}
+            op["bad"] = [steps[0][0], "band", "absent from one image"]
+        return op
 
     def gen_input_op(self, rnd, w, p_bad=0.3):
         ov = {}
@@ -308,8 +318,11 @@ class C05:
             user = {"pipeline": {n: copy.deepcopy(cfg) for n, k, m, cfg in op["steps"]}}
             before = copy.deepcopy(user)
             m, _ = runner.new_machine(instrumented=False)
+            metas = {"left": env["meta_left"], "right": env["meta_right"]}
+            for side_, names_ in (op.get("band_sets") or {}).items():
+                metas[side_] = metas[side_].assign_coords(band_im=list(names_))
             try:
-                out = cc.check_pipeline_section(user, env["meta_left"], env["meta_right"], m)
+                out = cc.check_pipeline_section(user, metas["left"], metas["right"], m)
                 verdict = "accept"
             except Exception as e:  # noqa
                 out, verdict = e, "reject"
